@@ -684,7 +684,7 @@ func ruleP06PrintWidth(p *Prog, r *Report) {
 		return ok && b.Name() == "len"
 	}
 	var updates []*ssa.Store
-	eachInstr(f, func(in ssa.Instruction) {
+	eachVInstr(f, func(in ssa.Instruction) {
 		st, ok := in.(*ssa.Store)
 		if !ok {
 			return
@@ -704,7 +704,7 @@ func ruleP06PrintWidth(p *Prog, r *Report) {
 	var phiAt ssa.Instruction
 	if len(updates) == 0 {
 		n := 0
-		eachInstr(f, func(in ssa.Instruction) {
+		eachVInstr(f, func(in ssa.Instruction) {
 			ph, ok := in.(*ssa.Phi)
 			if !ok || !isIntType(ph.Type()) {
 				return
@@ -744,7 +744,7 @@ func ruleP06PrintWidth(p *Prog, r *Report) {
 	}
 	// the value appended to the prefix list in this loop
 	var appended []ssa.Value
-	eachInstr(f, func(in ssa.Instruction) {
+	eachVInstr(f, func(in ssa.Instruction) {
 		c, ok := in.(*ssa.Call)
 		if !ok {
 			return
@@ -754,6 +754,14 @@ func ruleP06PrintWidth(p *Prog, r *Report) {
 				if pt, isPtr := elems[0].Type().Underlying().(*types.Pointer); isPtr {
 					if _, isStruct := pt.Elem().Underlying().(*types.Struct); isStruct {
 						appended = append(appended, strip(elems[0]))
+					}
+				}
+				// prefixes kept by value, a flag field saying whether there is one
+				if _, isStruct := elems[0].Type().Underlying().(*types.Struct); isStruct {
+					appended = append(appended, strip(elems[0]))
+					// … and the local variable it is read from
+					if u, isU := elems[0].(*ssa.UnOp); isU && u.Op == token.MUL {
+						appended = append(appended, u.X)
 					}
 				}
 			}
@@ -783,6 +791,20 @@ func ruleP06PrintWidth(p *Prog, r *Report) {
 			}
 			bad = "a nil test of something other than the appended prefix"
 			continue
+		}
+		// "there is a prefix" as a boolean field of the very value that is appended
+		if base, fld := fieldLoad(g.Cond); fld != "" && base != nil && g.Pol {
+			if bt, isB := g.Cond.Type().Underlying().(*types.Basic); isB && bt.Kind() == types.Bool {
+				match := false
+				for _, a := range appended {
+					if sameValue(base, a) || strip(base) == a {
+						match = true
+					}
+				}
+				if match {
+					continue
+				}
+			}
 		}
 		if bo, ok := g.Cond.(*ssa.BinOp); ok && (bo.Op == token.GTR || bo.Op == token.LSS || bo.Op == token.GEQ || bo.Op == token.LEQ) {
 			l, rr := strip(bo.X), strip(bo.Y)
@@ -1622,6 +1644,52 @@ func ruleP16DurationParts(p *Prog, r *Report) {
 		}
 	}
 	r.check(okd, rule, "both-empty-rejected", p.pos(f.Pos()), "a text without hour and minute part is rejected", "no rejection is guarded by 'hour group empty and minute group empty': a bare sign (\"-\", \"+\") or the empty text is accepted as a zero duration")
+	// beside an hour part the minute part runs from 0 to 59 — exactly what ToString writes
+	// (minutes % 60): the reader refuses 60 and more, and nothing less
+	bound := ""
+	nBound := 0
+	for _, b := range f.Blocks {
+		iff, isIf := b.Instrs[len(b.Instrs)-1].(*ssa.If)
+		if !isIf {
+			continue
+		}
+		for si, succ := range b.Succs {
+			for _, g := range flattenCond(iff.Cond, si == 0, iff) {
+				bo, isCmp := normCmp(g.Cond)
+				if !isCmp {
+					continue
+				}
+				op := bo.Op
+				if !g.Pol {
+					inv := map[token.Token]token.Token{token.LSS: token.GEQ, token.GEQ: token.LSS, token.GTR: token.LEQ, token.LEQ: token.GTR}
+					o2, known := inv[op]
+					if !known {
+						continue
+					}
+					op = o2
+				}
+				k, isK := constInt(bo.Y)
+				ac, ai := callOf(strip(bo.X))
+				if !isK || ac == nil || ai != 0 || staticCallee(ac) == nil || staticCallee(ac).String() != "strconv.Atoi" {
+					continue
+				}
+				// only tests that refuse the text on this edge
+				if rejectComplete(succ, func(ret *ssa.Return) string {
+					if !isNilConst(retResult(ret, 0)) {
+						return "returns a duration"
+					}
+					return ""
+				}) != "" {
+					continue
+				}
+				nBound++
+				if !((op == token.GEQ && k == 60) || (op == token.GTR && k == 59)) {
+					bound = fmt.Sprintf("minutes %s %d", op, k)
+				}
+			}
+		}
+	}
+	r.check(nBound > 0 && bound == "", rule, "minute-bound", p.pos(f.Pos()), "beside an hour part, minutes of 60 and more are refused — and only those", "the minute part beside an hour part is not refused exactly from 60 on ("+bound+"): either the reader refuses durations that ToString writes (1h59m), or it accepts 1h60m")
 }
 
 // P19-persist — every successful manipulation of the bookmarks is written: in
@@ -1909,9 +1977,7 @@ func ruleP07Head(p *Prog, r *Report) {
 		return
 	}
 	var work *ssa.Function
-	for _, c := range callsTo(parse, async) {
-		work = funcLiteral(c.Common().Args[len(c.Common().Args)-1])
-	}
+	work = p.workerLiteral(parse, async)
 	split := p.fn("klog/parser/engine", "splitIntoChunks")
 	pb := p.fn("klog/parser/txt", "ParseBlock")
 	if work == nil || !r.anchorFn(rule, split, "engine.splitIntoChunks") || !r.anchorFn(rule, pb, "txt.ParseBlock") {
@@ -2323,9 +2389,7 @@ func ruleP07Tail(p *Prog, r *Report) {
 		return
 	}
 	var work *ssa.Function
-	for _, c := range callsTo(parse, async) {
-		work = funcLiteral(c.Common().Args[len(c.Common().Args)-1])
-	}
+	work = p.workerLiteral(parse, async)
 	if work == nil {
 		r.undecided(rule, "work", p.pos(parse.Pos()), "work function literal not found")
 		return
@@ -2349,7 +2413,12 @@ func ruleP07Tail(p *Prog, r *Report) {
 		}
 		n++
 		good := false
-		if sl, isSl := strip(st.Val).(*ssa.Slice); isSl && sl.Low == nil && sl.High != nil {
+		kept := strip(st.Val)
+		// (the per-block error lists may be flattened in the worker already)
+		if fc, _ := callOf(kept); fc != nil && fld == "errs" && fnBase(staticCalleeOrNil(fc)) == "flatten" && len(fc.Common().Args) == 1 {
+			kept = strip(fc.Common().Args[0])
+		}
+		if sl, isSl := kept.(*ssa.Slice); isSl && sl.Low == nil && sl.High != nil {
 			if bo, isBo := strip(sl.High).(*ssa.BinOp); isBo && bo.Op == token.SUB {
 				if k, isK := constInt(bo.Y); isK && k == 1 {
 					if lc, _ := callOf(strip(bo.X)); lc != nil {
@@ -3009,9 +3078,7 @@ func ruleP07TailBytes(p *Prog, r *Report) {
 		return
 	}
 	var work *ssa.Function
-	for _, c := range callsTo(parse, async) {
-		work = funcLiteral(c.Common().Args[len(c.Common().Args)-1])
-	}
+	work = p.workerLiteral(parse, async)
 	if work == nil {
 		r.undecided(rule, "worker", p.pos(parse.Pos()), "the per-batch worker of the parallel engine was not found")
 		return
@@ -3368,6 +3435,37 @@ func ruleP09RestOfLine(p *Prog, r *Report) {
 		c, idx := callOf(ret.Results[0])
 		ok := c != nil && idx == 0 && sameFn(staticCallee(c), pu) && plainDeref(c.Common().Args[0]) == ssa.Value(rem.Params[0]) && never(c.Common().Args[1])
 		ht.enabled = was
+		if !ok {
+			// the closed form: the characters from the cursor to the end of the line, cut directly
+			if st, isSt := ret.Results[0].Type().Underlying().(*types.Struct); isSt {
+				for fi := 0; fi < st.NumFields(); fi++ {
+					if st.Field(fi).Name() != "Chars" {
+						continue
+					}
+					cv, isLit := compositeLitField(ret.Results[0], fi)
+					if !isLit || cv == nil {
+						continue
+					}
+					ofRecv := func(v ssa.Value, field string) bool {
+						base, fld := fieldLoad(v)
+						return fld == field && base != nil && strip(base) == ssa.Value(rem.Params[0])
+					}
+					switch x := strip(cv).(type) {
+					case *ssa.Slice:
+						ok = ofRecv(x.X, "Chars") && x.Low != nil && ofRecv(x.Low, "PointerPosition") && x.High == nil
+					case *ssa.Call:
+						if g := staticCallee(x); g != nil && fnBase(g) == "SubRune" && len(x.Call.Args) == 3 {
+							nm, recv, _, _ := methodCall(x.Call.Args[2])
+							okLen := nm == "RemainingLength" && recv != nil && strip(recv) == ssa.Value(rem.Params[0])
+							if !okLen {
+								_, okLen = remainingShape(polyX(x.Call.Args[2]))
+							}
+							ok = ofRecv(x.Call.Args[0], "Chars") && ofRecv(x.Call.Args[1], "PointerPosition") && okLen
+						}
+					}
+				}
+			}
+		}
 		r.check(ok, rule, fmt.Sprintf("Remainder:return#%d", i), p.instrPos(ret), "Remainder() = everything up to the end of the line", "Parseable.Remainder stops at a character instead of running to the end of the line: an entry summary that contains it (U+FFFD, i.e. any byte that is not valid UTF-8) is cut off there")
 	}
 	// every text handed to NewEntrySummary in parse is the whole rest of a line
